@@ -16,7 +16,9 @@ use std::sync::atomic::{AtomicUsize, Ordering};
 use std::sync::Mutex;
 use std::time::Instant;
 
-pub const SHIM: &str = "/verif/target/faultfs.so";
+pub fn shim() -> String {
+    format!("{}/target/faultfs.so", crate::engine::verif_dir())
+}
 
 #[derive(Serialize, Deserialize, Clone, Copy, Debug, PartialEq, Eq, Hash, PartialOrd, Ord)]
 pub enum Mode {
@@ -93,7 +95,7 @@ fn run_child(spec_path: &Path, dest: &Path, env: &[(&str, String)]) -> String {
     let exe = std::env::current_exe().unwrap();
     let mut cmd = std::process::Command::new(exe);
     cmd.arg("create-child").arg(spec_path).arg(dest).arg("a.jbk").stdout(std::process::Stdio::null()).stderr(std::process::Stdio::null());
-    cmd.env("LD_PRELOAD", SHIM);
+    cmd.env("LD_PRELOAD", shim());
     for (k, v) in env {
         cmd.env(k, v);
     }
@@ -284,8 +286,8 @@ pub fn check_cmd(tier: Tier) -> i32 {
     let seed = env_seed();
     install_panic_hook();
     let mut summary = RunSummary { violations: vec![], inconclusive: vec![], merged: WorkerResult::default(), known_printed: vec![], extra: BTreeMap::new() };
-    if !Path::new(SHIM).exists() {
-        eprintln!("INCONCLUSIVE property=C09: {SHIM} missing (run ./setup.sh)");
+    if !Path::new(&shim()).exists() {
+        eprintln!("INCONCLUSIVE property=C09: {} missing (run ./setup.sh)", shim());
         return 2;
     }
     replay_regress(id, &mut summary);
